@@ -214,7 +214,14 @@ theorem stepClient_sorted (g : G) (c : Client) (f : Fault) (hs : g.store.Sorted)
   · intro rev key val r st _ hdc
     rw [(finishCreate_store_wlog ..).1]; simpa using doCommit_sorted' hs hdc
   · intro rev old key val r st _ hdc
-    rw [(finishCreate_store_wlog ..).1]; simpa using doCommit_sorted' hs hdc
+    have h := doCommit_sorted' hs hdc
+    split
+    · simpa using h
+    · rw [(finishCreate_store_wlog ..).1]; simpa using h
+  · intro rev key val _
+    split
+    · rw [(finishCreate_store_wlog ..).1]; exact hs
+    · exact hs
   · intro rev key val exp r st _ _ hdc
     have h := doCommit_sorted' hs hdc
     split <;> simpa using h
@@ -503,7 +510,15 @@ theorem AlphaInv.stepClient {g : G} (h : AlphaInv g) {c : Client} (hc : c ∈ g.
     exact (h.afterCommit (h.st.pine hkey hdc) r f key rev (some val) .absent).finishCreate c hck hkey ..
   · intro rev old key val r st _ hk hdc
     have hkey := hkv hk
-    exact (h.afterCommit (h.st.cas hkey hdc) r f key rev (some val) .absent).finishCreate c hck hkey ..
+    have ha := h.afterCommit (h.st.cas hkey hdc) r f key rev (some val) .absent
+    split
+    · exact ha.setClient _ hck
+    · exact ha.finishCreate c hck hkey ..
+  · intro rev key val _ hk
+    have hkey := hkv hk
+    split
+    · exact h.finishCreate c hck hkey ..
+    · exact h.setClient _ hck
   · intro rev key val exp r st _ hkind hdc
     have hkey : Alphabet key := by simpa [hkind, ReqKind.key] using hck
     have ha := (h.afterCommit (h.st.cas hkey hdc) r f key rev (some val) (.rev exp)).notify
